@@ -120,7 +120,6 @@ Definition cl_default_qname (c : wcase) := default_qname_ok (c_user c) (c_evs c)
 Definition cl_uris (c : wcase) := uris_ok (c_evs c).
 Definition cl_names (c : wcase) := names_ok (c_evs c).
 Definition cl_texts (c : wcase) := texts_ok (c_cfg c) (c_evs c).
-Definition cl_adjacent (c : wcase) := no_adjacent_data (c_evs c).
 Definition cl_late_qname (c : wcase) := no_late_qname_data (c_evs c).
 Definition cl_nil (c : wcase) := nil_content_ok (c_evs c).
 Definition cl_clark (c : wcase) := no_clark_datatype_text (c_evs c).
